@@ -94,14 +94,35 @@ func shortID(id string) string {
 	return id
 }
 
+// maxFileNameIDLen bounds the part of a file name that is taken from a batch
+// identifier (a uuid has 36 characters).
+const maxFileNameIDLen = 64
+
+// fileNamePart makes an identifier usable as a part of a file name. Round,
+// batch and operation identifiers arrive in board messages and operation files:
+// a path separator, a NUL byte or an overlong value in one of them must decide
+// neither where the file is written nor whether it can be written at all.
+func fileNamePart(id string, maxLen int) string {
+	if len(id) > maxLen {
+		id = id[:maxLen]
+	}
+	return strings.Map(func(r rune) rune {
+		switch {
+		case r >= 'a' && r <= 'z', r >= 'A' && r <= 'Z', r >= '0' && r <= '9', r == '-', r == '_':
+			return r
+		}
+		return '_'
+	}, id)
+}
+
 func (o *Operation) Filename() (filename string) {
-	filename = fmt.Sprintf("dkg_id_%s", shortID(o.DKGIdentifier))
+	filename = fmt.Sprintf("dkg_id_%s", fileNamePart(shortID(o.DKGIdentifier), 5))
 
 	if o.IsSigningState() {
 		var payload responses.SigningPartialSignsParticipantInvitationsResponse
 
 		if err := json.Unmarshal(o.Payload, &payload); err == nil {
-			filename = fmt.Sprintf("%s_signing_id_%s", filename, payload.BatchID)
+			filename = fmt.Sprintf("%s_signing_id_%s", filename, fileNamePart(payload.BatchID, maxFileNameIDLen))
 		}
 	}
 
@@ -110,7 +131,7 @@ func (o *Operation) Filename() (filename string) {
 		filename,
 		getStepNumber(o.Type),
 		getShortOperationDescription(o.Type),
-		shortID(o.ID),
+		fileNamePart(shortID(o.ID), 5),
 	)
 }
 
